@@ -51,7 +51,7 @@ def check_values(ctx, case, n, orig, got, where: str) -> str:
         bad("normalized-not-finite", f"NaN/inf among normalised values {got[:8].tolist()}")
         return kind
     if kind == "additive":
-        if np.any(np.abs(got) > 1e-9):
+        if np.any(np.abs(got) > tau):
             i = int(np.argmax(np.abs(got)))
             bad("additive-game-not-zero", f"game is additive (surplus is 0 or a rounding residue) but normalised value of coalition {i} "
                 f"is {got[i]!r}")
@@ -209,7 +209,17 @@ def run(ctx) -> None:
         if r in (0, 1, 2):
             fam = rng.choice(gen.SA_FAMILIES + gen.SAM_FAMILIES)
             values = (gen.sam_game if fam.startswith("sam") else gen.sa_game)(rng, n, fam)[0]
+            if rng.random() < 0.25:
+                k2 = rng.choice([-60, -30, 30, 60])           # other units; powers of two keep everything exact
+                values = [v * 2.0 ** k2 for v in values]
+                fam = f"{fam}*2^{k2}"
             run_table_case(ctx, {"family": fam, "values": values})
+            if rng.random() < 0.03:
+                try:
+                    normalize_game(object())                  # a failing call survived by the caller
+                except Exception:
+                    pass
+                ctx.count("poison_calls")
         elif r in (3, 4):
             style = rng.choice(["forward", "reverse", "shuffled", "np_order", "pos"])
             run_table_case(ctx, {"family": f"additive_{style}", "values": additive_float(rng, n, style)})
